@@ -23,6 +23,7 @@ import random
 
 import core
 import sched
+import priv
 import c01
 from c01 import B
 
@@ -54,6 +55,12 @@ class C08(c01.C01):
             "under a model-guided random interleaving ended by a drain (thorough: every interleaving of the small "
             "scenarios up to a cap, sampled beyond); non-trivial = a cancel names a request that is in flight when "
             "it arrives")
+    private = sched.PRIVATE
+    trusted_base = ["Coq 8.16.1 kernel incl. vm_compute (Examples)",
+                    "extraction with ExtrOcamlBasic only + ocaml/c08_driver.ml + conv_io/n/z/nat",
+                    "harness/sched.py (ready-queue interposition on a private asyncio loop with _PyTask, duck-typed "
+                    "pool and writers, frame decoder) and harness/c08.py (generators, canonicalisation)",
+                    priv.trusted(sched.PRIVATE)]
     assumptions = ["request ids are JSON ints or strings; the trace clauses are judged for histories with pairwise "
                    "distinct request ids and no outgoing request reusing one of them",
                    "one writer.write call is atomic; a pool work item starts and finishes as two atomic events; "
